@@ -5,7 +5,12 @@ package appencryption
 
 // ---- well-formedness of the objects the SDK builds (constructor-established; assumed of entry-point receivers) ----
 
-//@ spec fn wfE(e *envelopeEncryption) bool = e != nil && e.partition != nil && e.Metastore != nil && e.KMS != nil && e.Policy != nil && e.Crypto != nil && e.SecretFactory != nil && e.skCache != nil && e.ikCache != nil
+// keylife() / keyprec(): the factory's ExpireKeyAfter and CreateDatePrecision (one policy per factory). C04's provisos:
+// a key lives at least one creation-precision window plus a second, so that a key created now is not born expired.
+//@ spec fn keylife() int
+//@ spec fn keyprec() int
+//@ axiom [policy-provisos] keyprec() >= 0 && keylife() >= keyprec() + 1000000000
+//@ spec fn wfE(e *envelopeEncryption) bool = e != nil && int(e.Policy.ExpireKeyAfter) == keylife() && int(e.Policy.CreateDatePrecision) == keyprec() && e.partition != nil && e.Metastore != nil && e.KMS != nil && e.Policy != nil && e.Crypto != nil && e.SecretFactory != nil && e.skCache != nil && e.ikCache != nil
 //@ spec fn wfCK(k *cachedCryptoKey) bool = k != nil && k.CryptoKey != nil && k.refs != nil && k.CryptoKey.secret != nil && valid(k) && valid(k.CryptoKey) && valid(k.CryptoKey.secret)
 
 // package-level metrics are initialised once, before any call
@@ -15,17 +20,17 @@ package appencryption
 
 //@ iface AEAD.Decrypt
 //@   names data, key
-//@   modifies ext_calls, mk_calls, lcalls
+//@   modifies ext_calls, mk_calls, lcalls, refused
 //@   ensures ext_calls == old(ext_calls) + 1
-//@   ensures mk_calls == old(mk_calls) && lcalls == old(lcalls)
+//@   ensures mk_calls == old(mk_calls) && lcalls == old(lcalls) && refused == old(refused)
 //@   ensures err != nil ==> len(result) == 0
 //@   ensures result == nil || fresh(result)
 
 //@ iface AEAD.Encrypt
 //@   names data, key
-//@   modifies ext_calls, mk_calls, lcalls
+//@   modifies ext_calls, mk_calls, lcalls, refused
 //@   ensures ext_calls == old(ext_calls) + 1
-//@   ensures mk_calls == old(mk_calls) && lcalls == old(lcalls)
+//@   ensures mk_calls == old(mk_calls) && lcalls == old(lcalls) && refused == old(refused)
 //@   ensures err != nil ==> len(result) == 0
 //@   ensures result == nil || fresh(result)
 
@@ -33,24 +38,24 @@ package appencryption
 
 //@ func decryptRow$1
 //@   facet C10
-//@   modifies ext_calls, mk_calls, lcalls
+//@   modifies ext_calls, mk_calls, lcalls, refused
 //@   ensures [C10:rawdrk-wiped] forall i int :: 0 <= i && i < len(ret(Decrypt, 1, 0)) ==> ret(Decrypt, 1, 0)[i] == 0
 
 // ---- KMS (interface contract; fault-inclusive) ----
 
 //@ iface KeyManagementService.DecryptKey
 //@   names ctx, key
-//@   modifies ext_calls, mk_calls, lcalls
+//@   modifies ext_calls, mk_calls, lcalls, refused
 //@   ensures ext_calls == old(ext_calls) + 1
-//@   ensures mk_calls == old(mk_calls) + 1 && lcalls == old(lcalls)
+//@   ensures mk_calls == old(mk_calls) + 1 && lcalls == old(lcalls) && refused == old(refused)
 //@   ensures err != nil ==> len(result) == 0
 //@   ensures result == nil || fresh(result)
 
 //@ iface KeyManagementService.EncryptKey
 //@   names ctx, key
-//@   modifies ext_calls, mk_calls, lcalls
+//@   modifies ext_calls, mk_calls, lcalls, refused
 //@   ensures ext_calls == old(ext_calls) + 1
-//@   ensures mk_calls == old(mk_calls) + 1 && lcalls == old(lcalls)
+//@   ensures mk_calls == old(mk_calls) + 1 && lcalls == old(lcalls) && refused == old(refused)
 //@   ensures err != nil ==> len(result) == 0
 //@   ensures result == nil || fresh(result)
 
@@ -59,10 +64,11 @@ package appencryption
 //@ func (*envelopeEncryption).systemKeyFromEKR
 //@   facet C10, C02, C09
 //@   requires wfE(e) && ekr != nil
-//@   modifies ext_calls, mk_calls, lcalls, live
+//@   modifies ext_calls, mk_calls, lcalls, refused, live
 //@   ensures [C09:only-the-returned-key-s-secret-is-new] forall s securememory.Secret :: live(s) && !old(live(s)) ==> fresh(s) && err == nil && s == result.secret
 //@   ensures [C09:nothing-released] forall s securememory.Secret :: old(live(s)) ==> live(s)
 //@   ensures (err == nil) == (result != nil)
+//@   ensures err == nil ==> (result.revoked == 1) == old(ekr.Revoked)
 //@   ensures err == nil ==> result.created == old(ekr.Created) && result.secret != nil && valid(result.secret) && fresh(result.secret)
 //@   ensures [C10:kms-plaintext-wiped] forall i int :: 0 <= i && i < len(ret(DecryptKey, 1, 0)) ==> ret(DecryptKey, 1, 0)[i] == 0
 
@@ -70,12 +76,13 @@ package appencryption
 //@   facet C10, C02, C09
 //@   ensures [C09:references-balanced] forall k *cachedCryptoKey :: owed(k) == old(owed(k))
 //@   requires wfE(e) && sk != nil && ekr != nil
-//@   modifies ext_calls, mk_calls, lcalls, ms, owed, live, cacheowned
+//@   modifies ext_calls, mk_calls, lcalls, refused, ms, owed, live, cacheowned
 //@   ensures [C09:no-stray-secret] forall s securememory.Secret :: live(s) && !old(live(s)) ==> fresh(s) && (cacheowned(s) || (err == nil && s == result.secret))
 //@   ensures [C09:cache-ownership-is-kept] forall s securememory.Secret :: old(cacheowned(s)) ==> cacheowned(s)
 //@   ensures [C09:only-new-secrets-become-cache-owned] forall s securememory.Secret :: cacheowned(s) && !old(cacheowned(s)) ==> fresh(s)
 //@   ensures msGrows(old(ms), ms)
 //@   ensures (err == nil) == (result != nil)
+//@   ensures err == nil ==> (result.revoked == 1) == old(ekr.Revoked)
 //@   ensures err == nil ==> result.created == old(ekr.Created) && result.secret != nil && valid(result.secret) && fresh(result.secret)
 //@   ensures [C10:ik-plaintext-wiped] forall i int :: 0 <= i && i < len(ret(WithBytesFunc, 1, 0)) ==> ret(WithBytesFunc, 1, 0)[i] == 0
 
@@ -86,7 +93,7 @@ package appencryption
 //@ spec fn loaderExact(f ref) bool
 //@ funcspec keyLoader
 //@   names meta
-//@   modifies ms, ext_calls, mk_calls, lcalls, owed, live, cacheowned
+//@   modifies ms, ext_calls, mk_calls, lcalls, refused, owed, live, cacheowned
 //@   ghost ensures lcalls == old(lcalls) + 1 && mk_calls >= old(mk_calls)
 //@   ensures [C09:loader-leaves-no-stray-secret] forall s securememory.Secret :: live(s) && !old(live(s)) ==> fresh(s) && (cacheowned(s) || (err == nil && s == result.secret))
 //@   ensures [C09:cache-ownership-is-kept] forall s securememory.Secret :: old(cacheowned(s)) ==> cacheowned(s)
@@ -97,6 +104,7 @@ package appencryption
 //@   ensures err == nil ==> result.secret != nil && valid(result.secret) && fresh(result.secret)
 //@   ensures err == nil && loaderFor(this, meta.ID) ==> ms[meta.ID][result.created]
 //@   ensures err == nil && loaderExact(this) ==> result.created == meta.Created
+//@   ensures [C04:latest-loader-returns-a-valid-key-unless-an-insert-was-refused] err == nil && !loaderExact(this) && refused == old(refused) ==> result.revoked != 1 && (exists t int :: old(now()) <= t && t <= now() && !(t > result.created * 1000000000 + keylife()))
 
 //@ iface keyCacher.GetOrLoad
 //@   names id, loader
@@ -109,7 +117,7 @@ package appencryption
 //@   ghost ensures err == nil ==> owed(result) == old(owed(result)) + 1
 //@   ghost ensures forall k *cachedCryptoKey :: k != result || err != nil ==> owed(k) == old(owed(k))
 //@   requires [C02,C14:loader-fits-id] loaderFor(loader, id.ID) && (id.Created != 0 ==> loaderExact(loader))
-//@   modifies ext_calls, mk_calls, lcalls, ms
+//@   modifies ext_calls, mk_calls, lcalls, refused, ms
 //@   ghost ensures ext_calls > old(ext_calls) && mk_calls >= old(mk_calls) && lcalls >= old(lcalls)
 //@   ensures msGrows(old(ms), ms)
 //@   ensures (err == nil) == (result != nil)
@@ -125,8 +133,9 @@ package appencryption
 //@   ghost ensures err == nil && !cacheowned(result.CryptoKey.secret) ==> owed(result) == 1
 //@   ghost ensures err == nil ==> owed(result) == old(owed(result)) + 1
 //@   ghost ensures forall k *cachedCryptoKey :: k != result || err != nil ==> owed(k) == old(owed(k))
-//@   requires [C02,C14:loader-fits-id] loaderFor(loader, id)
-//@   modifies ext_calls, mk_calls, lcalls, ms
+//@   requires [C02,C14:loader-fits-id] loaderFor(loader, id) && !loaderExact(loader)
+//@   ghost ensures err == nil && refused == old(refused) ==> result.CryptoKey.revoked != 1 && (exists t int :: old(now()) <= t && t <= now() && !(t > result.CryptoKey.created * 1000000000 + keylife()))
+//@   modifies ext_calls, mk_calls, lcalls, refused, ms
 //@   ghost ensures ext_calls > old(ext_calls) && mk_calls >= old(mk_calls) && lcalls >= old(lcalls)
 //@   ensures msGrows(old(ms), ms)
 //@   ensures (err == nil) == (result != nil)
@@ -184,10 +193,12 @@ package appencryption
 //@   ensures result == sysid(this)
 
 // every external lookup bumps ext_calls: a rejected record must be rejected before any of them
-//@ ghost var ext_calls int
+//@ ghost var ext_calls int counter
 // mk_calls: calls to the metastore and the KMS; lcalls: invocations of key loaders (C20)
-//@ ghost var mk_calls int
-//@ ghost var lcalls int
+//@ ghost var mk_calls int counter
+//@ ghost var lcalls int counter
+// refused: inserts the metastore refused (Store returned false: duplicate, or a store that does not accept the write)
+//@ ghost var refused int counter
 
 //@ func (*envelopeEncryption).DecryptDataRowRecord
 //@   facet C06, C07, C09
@@ -212,27 +223,28 @@ package appencryption
 // Store returning true means the row is there; nothing is promised when it returns false (duplicate, lost write, error).
 //@ iface Metastore.Load
 //@   names ctx, keyID, created
-//@   modifies ext_calls, mk_calls, lcalls, ms
+//@   modifies ext_calls, mk_calls, lcalls, refused, ms
 //@   ensures ext_calls == old(ext_calls) + 1
-//@   ensures mk_calls == old(mk_calls) + 1 && lcalls == old(lcalls)
+//@   ensures mk_calls == old(mk_calls) + 1 && lcalls == old(lcalls) && refused == old(refused)
 //@   ensures msGrows(old(ms), ms)
 //@   ensures err == nil && result != nil ==> result.Created == created && ms[keyID][created]
 
 //@ iface Metastore.LoadLatest
 //@   names ctx, keyID
-//@   modifies ext_calls, mk_calls, lcalls, ms
+//@   modifies ext_calls, mk_calls, lcalls, refused, ms
 //@   ensures ext_calls == old(ext_calls) + 1
-//@   ensures mk_calls == old(mk_calls) + 1 && lcalls == old(lcalls)
+//@   ensures mk_calls == old(mk_calls) + 1 && lcalls == old(lcalls) && refused == old(refused)
 //@   ensures msGrows(old(ms), ms)
 //@   ensures err == nil && result != nil ==> ms[keyID][result.Created]
 
 //@ iface Metastore.Store
 //@   names ctx, keyID, created, envelope
-//@   modifies ext_calls, mk_calls, lcalls, ms
+//@   modifies ext_calls, mk_calls, lcalls, refused, ms
 //@   ensures ext_calls == old(ext_calls) + 1
 //@   ensures mk_calls == old(mk_calls) + 1 && lcalls == old(lcalls)
 //@   ensures msGrows(old(ms), ms)
 //@   ensures result ==> ms[keyID][created]
+//@   ensures refused == old(refused) + (if result then 0 else 1)
 
 // ---- C07: no input record, metastore row or loader result makes the decrypt path panic ----
 
@@ -241,7 +253,7 @@ package appencryption
 //@   ensures [C09:references-balanced] forall k *cachedCryptoKey :: owed(k) == old(owed(k))
 //@   safety C07
 //@   requires wfE(e)
-//@   modifies ext_calls, mk_calls, lcalls, ms, owed, live, cacheowned
+//@   modifies ext_calls, mk_calls, lcalls, refused, ms, owed, live, cacheowned
 //@   ensures [C09:no-stray-secret] forall s securememory.Secret :: live(s) && !old(live(s)) ==> fresh(s) && (cacheowned(s) || (err == nil && s == result.secret))
 //@   ensures [C09:cache-ownership-is-kept] forall s securememory.Secret :: old(cacheowned(s)) ==> cacheowned(s)
 //@   ensures [C09:only-new-secrets-become-cache-owned] forall s securememory.Secret :: cacheowned(s) && !old(cacheowned(s)) ==> fresh(s)
@@ -255,7 +267,7 @@ package appencryption
 //@   ensures [C09:references-balanced] forall k *cachedCryptoKey :: owed(k) == old(owed(k))
 //@   safety C07
 //@   requires wfE(e)
-//@   modifies ext_calls, mk_calls, lcalls, ms, owed, live
+//@   modifies ext_calls, mk_calls, lcalls, refused, ms, owed, live
 //@   ensures [C09:only-the-returned-key-s-secret-is-new] forall s securememory.Secret :: live(s) && !old(live(s)) ==> fresh(s) && err == nil && s == result.secret
 //@   ensures [C09:nothing-released] forall s securememory.Secret :: old(live(s)) ==> live(s)
 //@   ensures [C02:ms-only-grows] msGrows(old(ms), ms)
@@ -305,10 +317,11 @@ package appencryption
 //@   requires wfE(e)
 
 //@ func (*envelopeEncryption).loadLatestOrCreateSystemKey
-//@   facet C02, C14, C09
+//@   facet C02, C14, C09, C04
 //@   ensures [C09:references-balanced] forall k *cachedCryptoKey :: owed(k) == old(owed(k))
 //@   requires wfE(e)
-//@   modifies ext_calls, mk_calls, lcalls, ms, owed, live
+//@   ensures [C04:returned-key-valid-within-call-unless-an-insert-was-refused] err == nil && refused == old(refused) ==> result.revoked != 1 && (exists t int :: old(now()) <= t && t <= now() && !(t > result.created * 1000000000 + keylife()))
+//@   modifies ext_calls, mk_calls, lcalls, refused, ms, owed, live
 //@   ensures [C09:only-the-returned-key-s-secret-is-new] forall s securememory.Secret :: live(s) && !old(live(s)) ==> fresh(s) && err == nil && s == result.secret
 //@   ensures [C09:nothing-released] forall s securememory.Secret :: old(live(s)) ==> live(s)
 //@   ensures [C02:ms-only-grows] msGrows(old(ms), ms)
@@ -316,17 +329,18 @@ package appencryption
 //@   ensures [C02,C14:backed] err == nil ==> result.secret != nil && valid(result.secret) && fresh(result.secret) && (id == sysid(e.partition) ==> ms[id][result.created])
 
 //@ func (*envelopeEncryption).createIntermediateKey$1
-//@   facet C02, C14
+//@   facet C02, C14, C04
 //@   implements keyLoader
 //@   attr loaderFor(id string) = id == sysid(e.partition)
 //@   attr loaderExact() = false
 //@   requires wfE(e)
 
 //@ func (*envelopeEncryption).createIntermediateKey
-//@   facet C02, C14, C09
+//@   facet C02, C14, C09, C04
 //@   ensures [C09:references-balanced] forall k *cachedCryptoKey :: owed(k) == old(owed(k))
 //@   requires wfE(e)
-//@   modifies ext_calls, mk_calls, lcalls, ms, owed, live, cacheowned
+//@   ensures [C04:returned-key-valid-within-call-unless-an-insert-was-refused] err == nil && refused == old(refused) ==> result.revoked != 1 && (exists t int :: old(now()) <= t && t <= now() && !(t > result.created * 1000000000 + keylife()))
+//@   modifies ext_calls, mk_calls, lcalls, refused, ms, owed, live, cacheowned
 //@   ensures [C09:unsaved-key-released] ret(GenerateKey, 1, 1) == nil && (err != nil || result != ret(GenerateKey, 1, 0)) ==> !live(ret(GenerateKey, 1, 0).secret)
 //@   ensures [C09:no-stray-secret] forall s securememory.Secret :: live(s) && !old(live(s)) ==> fresh(s) && (cacheowned(s) || (err == nil && s == result.secret))
 //@   ensures [C09:cache-ownership-is-kept] forall s securememory.Secret :: old(cacheowned(s)) ==> cacheowned(s)
@@ -336,10 +350,11 @@ package appencryption
 //@   ensures [C02,C14:backed] err == nil ==> result.secret != nil && valid(result.secret) && fresh(result.secret) && ms[ikidOf(e.partition)][result.created]
 
 //@ func (*envelopeEncryption).loadLatestOrCreateIntermediateKey
-//@   facet C02, C14, C09
+//@   facet C02, C14, C09, C04
 //@   ensures [C09:references-balanced] forall k *cachedCryptoKey :: owed(k) == old(owed(k))
 //@   requires wfE(e)
-//@   modifies ext_calls, mk_calls, lcalls, ms, owed, live, cacheowned
+//@   ensures [C04:returned-key-valid-within-call-unless-an-insert-was-refused] err == nil && refused == old(refused) ==> result.revoked != 1 && (exists t int :: old(now()) <= t && t <= now() && !(t > result.created * 1000000000 + keylife()))
+//@   modifies ext_calls, mk_calls, lcalls, refused, ms, owed, live, cacheowned
 //@   ensures [C09:no-stray-secret] forall s securememory.Secret :: live(s) && !old(live(s)) ==> fresh(s) && (cacheowned(s) || (err == nil && s == result.secret))
 //@   ensures [C09:cache-ownership-is-kept] forall s securememory.Secret :: old(cacheowned(s)) ==> cacheowned(s)
 //@   ensures [C09:only-new-secrets-become-cache-owned] forall s securememory.Secret :: cacheowned(s) && !old(cacheowned(s)) ==> fresh(s)
@@ -348,7 +363,7 @@ package appencryption
 //@   ensures [C02,C14:backed] err == nil ==> result.secret != nil && valid(result.secret) && fresh(result.secret) && (id == ikidOf(e.partition) ==> ms[id][result.created])
 
 //@ func (*envelopeEncryption).EncryptPayload$1
-//@   facet C02, C14
+//@   facet C02, C14, C04
 //@   implements keyLoader
 //@   attr loaderFor(id string) = id == ikidOf(e.partition)
 //@   attr loaderExact() = false
@@ -362,9 +377,10 @@ package appencryption
 //@   requires wfE(e)
 
 //@ func (*envelopeEncryption).EncryptPayload
-//@   facet C02, C14, C09
+//@   facet C02, C14, C09, C04
 //@   opt no-frame
 //@   requires wfE(e)
+//@   ensures [C04:record-names-an-ik-valid-within-the-call-unless-an-insert-was-refused] err == nil && refused == old(refused) ==> (exists t int :: old(now()) <= t && t <= now() && !(t > result.Key.ParentKeyMeta.Created * 1000000000 + keylife()))
 //@   ensures [C09:references-balanced] forall k *cachedCryptoKey :: owed(k) == old(owed(k))
 //@   ensures [C09:no-stray-secret] forall s securememory.Secret :: live(s) && !old(live(s)) ==> fresh(s) && (cacheowned(s) || s == ret(GetOrLoadLatest, 1, 0).CryptoKey.secret)
 //@   ensures [C09:drk-secret-released] ret(GenerateKey, 1, 1) == nil ==> !live(ret(GenerateKey, 1, 0).secret)
@@ -379,6 +395,7 @@ package appencryption
 //@   ensures [C14:racers-in-one-window-collide] truncate > 0 ==> result == ((now() / int(truncate)) * int(truncate)) / 1000000000
 //@   ensures [C14:no-truncation-without-precision] truncate <= 0 ==> result == now() / 1000000000
 //@   ensures [C04:stamp-not-in-future] truncate >= 0 ==> result * 1000000000 <= now()
+//@   ensures [C04:stamp-within-one-window-of-now] truncate >= 0 ==> now() < result * 1000000000 + int(truncate) + 1000000000
 
 // =====================================================================================================
 // keyCache: the in-repo implementation of keyCacher, verified against the interface contract above.
@@ -478,7 +495,8 @@ package appencryption
 //@   ensures [C09:no-other-reference-moves] forall k *cachedCryptoKey :: k != result || err != nil ==> owed(k) == old(owed(k))
 //@   param loader keyLoader
 //@   requires c != nil && c.rw == 0 && loader != nil && c.policy != nil && c.policy.RevokeCheckInterval >= 0
-//@   requires loaderFor(loader, id)
+//@   requires loaderFor(loader, id) && !loaderExact(loader) && int(c.policy.ExpireKeyAfter) == keylife()
+//@   ensures [C04:returned-latest-key-valid-within-call-unless-an-insert-was-refused] err == nil && refused == old(refused) ==> result.CryptoKey.revoked != 1 && (exists t int :: old(now()) <= t && t <= now() && !(t > result.CryptoKey.created * 1000000000 + keylife()))
 //@   ensures [C08:lock-released] c.rw == 0
 //@   ensures [C02:ms-only-grows] msGrows(old(ms), ms)
 //@   ensures [C02:error-returns-nil] (err == nil) == (result != nil)
@@ -501,7 +519,7 @@ package appencryption
 //@   ensures [C02,C14:cache-returns-backed-key] err == nil ==> wfCK(result) && ms[id.ID][result.CryptoKey.created]
 
 //@ func (neverCache).GetOrLoadLatest
-//@   facet C09, C02, C14, C07
+//@   facet C09, C02, C14, C07, C04
 //@   safety C07
 //@   opt no-frame
 //@   ensures [C09:uncached-key-has-one-reference] err == nil && !cacheowned(result.CryptoKey.secret) ==> owed(result) == 1
@@ -511,7 +529,8 @@ package appencryption
 //@   ensures [C09,C08:returns-exactly-one-reference] err == nil ==> owed(result) == old(owed(result)) + 1
 //@   ensures [C09:no-other-reference-moves] forall k *cachedCryptoKey :: k != result || err != nil ==> owed(k) == old(owed(k))
 //@   param loader keyLoader
-//@   requires loader != nil && loaderFor(loader, id)
+//@   requires loader != nil && loaderFor(loader, id) && !loaderExact(loader)
+//@   ensures [C04:returned-latest-key-valid-within-call-unless-an-insert-was-refused] err == nil && refused == old(refused) ==> result.CryptoKey.revoked != 1 && (exists t int :: old(now()) <= t && t <= now() && !(t > result.CryptoKey.created * 1000000000 + keylife()))
 //@   ensures [C02:ms-only-grows] msGrows(old(ms), ms)
 //@   ensures [C02:error-returns-nil] (err == nil) == (result != nil)
 //@   ensures [C02,C14:cache-returns-backed-key] err == nil ==> wfCK(result) && ms[id][result.CryptoKey.created]
